@@ -77,7 +77,13 @@ fn wire_all() -> Vec<Job> {
 pub fn jobs_for(prop: &str) -> Vec<Job> {
     use crate::twin::TwinMode;
     match prop {
-        "C01" | "C02" | "C07" | "C08" => seq_all(Focus::General, 1),
+        "C02" | "C08" => seq_all(Focus::General, 1),
+        "C01" | "C07" => {
+            // sequential histories, plus the scheduled batches (forks and orphans under overlap)
+            let mut v = seq_all(Focus::General, 1);
+            v.extend(conc_all());
+            v
+        }
         "C18" => {
             let mut v = seq_all(Focus::General, 1);
             v.extend(wire_all());
